@@ -126,6 +126,9 @@ class ModelError(Exception):
     pass
 
 
+DRIVER_LOG = []          # (case line, answer line) of every driver call of this process (capped); used by harness/vmcheck.py
+
+
 def run_driver(lines):
     """Run the extracted model on a batch of case lines; returns the output lines."""
     if not lines:
@@ -141,6 +144,9 @@ def run_driver(lines):
         out.pop()
     if len(out) != len(lines):
         raise ModelError(f"driver returned {len(out)} lines for {len(lines)} cases")
+    if len(DRIVER_LOG) < 40000:
+        step = max(1, len(lines) // 2000)
+        DRIVER_LOG.extend(list(zip(lines, out))[::step])
     return out
 
 
@@ -354,6 +360,7 @@ def write_evidence(ctx, proof, cov, assumptions, violations):
         ] + list(cov.pop("trusted_base_extra", [])),
         "theorems": proof["theorems"],
         "proof_problems": proof["problems"],
+        "extraction_crosscheck": proof.get("vmcheck", "not run in this tier (thorough tier: a sample of the driver calls is re-evaluated with vm_compute inside Coq, harness/vmcheck.py)"),
         "coqchk": proof.get("coqchk", "not run in this tier (thorough tier runs coqchk -o on Props/%s.vo and its dependencies)" % ctx.prop),
     }
     coverage.update(cov)
